@@ -73,12 +73,20 @@ type FuncV struct {
 type UnknownV struct{ Why string }
 
 type Heap struct {
-	m map[string]*Term
-	A *Term // allocation counter
+	m    map[string]*Term
+	A    *Term  // allocation counter
+	base string // suffix of the variables standing for maps not touched since the last total havoc
+}
+
+func (h *Heap) baseSuffix() string {
+	if h.base == "" {
+		return "$0"
+	}
+	return h.base
 }
 
 func (h *Heap) Clone() *Heap {
-	n := &Heap{m: make(map[string]*Term, len(h.m)), A: h.A}
+	n := &Heap{m: make(map[string]*Term, len(h.m)), A: h.A, base: h.base}
 	for k, v := range h.m {
 		n.m[k] = v
 	}
@@ -315,7 +323,7 @@ func (x *FnCtx) heapGet(h *Heap, name string, s *Sort) *Term {
 		return t
 	}
 	// the entry heap is shared lazily: same name => same variable
-	t := x.tb.Var(name+"$0", s)
+	t := x.tb.Var(name+h.baseSuffix(), s)
 	h.m[name] = t
 	x.heapSorts[name] = s
 	return t
